@@ -335,9 +335,13 @@ class CircuitCompositeOperation(ICircuitCompositeOperation):
         :return: Modified self.
         """
         flatten_circuit_graph: CircuitGraphBranch = CircuitGraphBranch()
-        for operation in tqdm(self.decomposed_operations(), desc="Flatten Circuit Graph"):
-            # An operation following a (nested) composite operation, follows the operations contained by that composite
+        operations: List[ICircuitOperation] = self.decomposed_operations()
+        # An operation following a (nested) composite operation, follows the operations contained by that composite.
+        # All references are resolved before the graph is rebuilt: resolving lists the referenced composite operation,
+        # which hands its own relation link (back) to its first operations.
+        for operation in operations:
             operation.relation_link = CircuitCompositeOperation._resolve_composite_references(operation.relation_link)
+        for operation in tqdm(operations, desc="Flatten Circuit Graph"):
             CircuitGraphBranch.add_to_graph(
                 graph=flatten_circuit_graph,
                 operation=operation,
